@@ -30,7 +30,8 @@ ASSUMPTIONS = ["check_each_level stays at its default (True)", "ContinuousTapCon
                "user-chosen relaxation: tap bounds are then not required", "probe controllers change the net only in "
                "control_step", "result equality: |a-b| <= 1e-6 + 1e-6|b| against runpp on a scrubbed copy"]
 REACH_PROBES = ["control_loop_hit_max_iter", "run_invocation_failed", "multi_level", "tap_at_limit_on_return",
-                "second_call_on_same_net", "probe_controller_never_converges", "returned_normally"]
+                "second_call_on_same_net", "probe_controller_never_converges", "returned_normally",
+                "trafo3w_tap_changer_on_mv_winding"]
 
 TEMPLATES = [("feeder", 4), ("feeder_t3w", 3), ("feeder_taptable", 1)]
 
@@ -79,8 +80,10 @@ def generate(rng, idx, tier):
         # start taps anywhere in the range and - biased - exactly at the limits; tap changer side hv or lv
         ol.append({"op": "start_tap", "element": rng.choice(["trafo", "trafo", "trafo3w"]), "row": rng.randrange(100),
                    "frac": rng.choice([0.0, 1.0, round(rng.random(), 3), round(rng.random(), 3)]),
-                   "neg_step": rng.random() < 0.1, "tap_side": rng.choice([None, "hv", "lv", "lv"]),
+                   "neg_step": rng.random() < 0.1, "tap_side": rng.choice([None, "hv", "lv", "lv", "mv", "mv"]),
                    "eg_vm": rng.choice([None, None, 0.96, 1.06])})
+        if ol[-1]["tap_side"] == "mv":
+            ol[-1]["element"] = "trafo3w"       # only a three-winding transformer has a mv winding
     for _ in range(rng.randint(1, 5)):
         ol.append(gen_controller(rng))
     for call in range(rng.randint(1, 3)):
@@ -183,8 +186,11 @@ def execute(ep, ctx):
                 # (with a tap dependency table the ratio comes from the table: a negative tap_step_percent would
                 # contradict it - an inconsistent input, not a controller property)
                 net[el].at[r, "tap_step_percent"] = -abs(float(net[el].at[r, "tap_step_percent"]))
-            if op.get("tap_side") and el == "trafo":
+            if op.get("tap_side") and (el == "trafo3w" or op["tap_side"] != "mv"):
+                # (the tap changer of a three-winding transformer may sit on any of its three windings)
                 net[el].at[r, "tap_side"] = op["tap_side"]
+                if el == "trafo3w" and op["tap_side"] == "mv":
+                    ctx.probe("trafo3w_tap_changer_on_mv_winding")
             if op.get("eg_vm"):
                 net.ext_grid["vm_pu"] = op["eg_vm"]     # pushes voltages towards / beyond the bands
             ctx.event("start_tap", el, int(r), int(net[el].at[r, "tap_pos"]))
